@@ -589,6 +589,13 @@ def _run_core(rec, seed, budget, shard, nshards):
                                      ['configure'], ['build'],
                                      ['edit_script', which, kind],
                                      ['build'], ['build']]})
+        # the toolchain file goes through all its states (settings appear,
+        # change and disappear again)
+        hist = [['configure'], ['build']]
+        for _ in range(len(TC_STATES)):
+            hist += [['edit_script', 'toolchain', 'semantic'], ['build']]
+        jobs.append({'backend': backend, 'use_extra': False, 'use_pkg': False,
+                     'use_custom': False, 'history': hist})
         # a file appears where one of the find_files()/directory() calls looks
         for rel in ('src/zz_new.c', 'tools/t2.c', 'include/zz_new.h',
                     'assets/n.png', 'data/n.dat', 'sub/zz_new.c'):
